@@ -15,11 +15,20 @@
    [post l m s'] (phase 2: the enqueueing half of acquire(), including propagate_priority's
       re-keying, and the bookkeeping of Task.__step after the coroutine has yielded)
       - no queued future of l becomes woken; queued futures are old ones or fresh ids.
-   [pp l s s'] := exists m, pre l s m /\ post l m s'.
+   [pp l t s s'] := exists m, pre l t s m /\ post l m s'.
 
    Without asynkit.eager() starts every action is a [pp] step: a primitive that enqueues
    (acquire() on a busy lock) returns a suspension, after which the step only stores the
-   continuation. *)
+   continuation.
+
+   Since the repair of F16 there is a phase 0: the `finally` of acquire(), which runs first when
+   a task suspended in acquire() is resumed, calls owning.propagate_priority when the waiter
+   leaves a lock that stays locked by another task, and that RE-KEYS entries - possibly entries
+   of l.  [rek l s m0] says what such a step keeps (which futures are queued, their states, the
+   owner of l).  Phase 1 therefore also records, for the running task t, [otr]: a wake-up of a
+   waiter of l after phase 0 happens only if t owned l when phase 1 began ([o_own]), and t does not
+   become the owner of l while l has waiters ([o_gain]).  So "re-keyed, then woken" needs a task
+   that owns l and was suspended in acquire(): a waits-for cycle broken by a cancellation. *)
 From Coq Require Import QArith Lqa Sorting.Permutation.
 From RecordUpdate Require Import RecordUpdate.
 From Asynkit Require Import Base.Prelude Queue.PQ Queue.Order Queue.PQProofs Queue.PosPQ Queue.Exec
@@ -48,7 +57,7 @@ Lemma woken_fdone s f : woken s f = true -> fdone s f = true.
 Proof. unfold woken, fdone. destruct (fstate_ (getf s f)); auto. Qed.
 
 (* ------------------------------------------------------------ phase 1 *)
-Record pre (l : nat) (s s' : st) : Prop := mkPre {
+Record prc (l : nat) (s s' : st) : Prop := mkPre {
   p_len : nf s <= nf s';
   p_sub : forall e, In e (qa l s') -> In e (qa l s);
   p_done : forall f, fdone s f = true -> fdone s' f = true;
@@ -56,10 +65,10 @@ Record pre (l : nat) (s s' : st) : Prop := mkPre {
           woken s (fo eb) = false -> woken s' (fo eb) = true -> fdone s' (fo ea) = false ->
           entry_lt qltb eb ea = true }.
 
-Lemma pre_refl l s : pre l s s.
+Lemma prc_refl l s : prc l s s.
 Proof. constructor; auto. intros ea eb _ _ A B. congruence. Qed.
 
-Lemma pre_trans l s1 s2 s3 : pre l s1 s2 -> pre l s2 s3 -> pre l s1 s3.
+Lemma prc_trans l s1 s2 s3 : prc l s1 s2 -> prc l s2 s3 -> prc l s1 s3.
 Proof.
   intros A B. constructor.
   - pose proof (p_len _ _ _ A). pose proof (p_len _ _ _ B). lia.
@@ -70,6 +79,57 @@ Proof.
       destruct (fdone s2 (fo ea)) eqn:D2; auto. apply (p_done _ _ _ B) in D2. congruence.
     + apply (p_min _ _ _ B); auto.
 Qed.
+
+(* ownership of l by the running task t during phase 1 *)
+Record otr (l t : nat) (s s' : st) : Prop := mkOtr {
+  o_own : forall e, In e (qa l s') -> woken s (fo e) = false -> woken s' (fo e) = true ->
+          lowner (getl s l) = Some t;
+  o_gain : lowner (getl s' l) = Some t -> lowner (getl s l) = Some t \/ qa l s' = [] }.
+
+Definition pre (l t : nat) (s s' : st) : Prop := prc l s s' /\ otr l t s s'.
+
+Lemma pre_refl l t s : pre l t s s.
+Proof. split; [apply prc_refl|]. constructor; auto. intros e _ A B. congruence. Qed.
+
+Lemma pre_trans l t s1 s2 s3 : pre l t s1 s2 -> pre l t s2 s3 -> pre l t s1 s3.
+Proof.
+  intros [A OA] [B OB]. split; [eapply prc_trans; eauto|]. constructor.
+  - intros e He W1 W3. destruct (woken s2 (fo e)) eqn:W2.
+    + apply (o_own _ _ _ _ OA e); auto. apply (p_sub _ _ _ B), He.
+    + pose proof (o_own _ _ _ _ OB e He W2 W3) as H2.
+      destruct (o_gain _ _ _ _ OA H2) as [H|H]; auto.
+      apply (p_sub _ _ _ B) in He. rewrite H in He. destruct He.
+  - intros H3. destruct (o_gain _ _ _ _ OB H3) as [H2|H2]; auto.
+    destruct (o_gain _ _ _ _ OA H2) as [H1|H1]; auto. right.
+    destruct (qa l s3) as [|e r] eqn:E; auto.
+    assert (He : In e (qa l s2)) by (apply (p_sub _ _ _ B); rewrite E; now left).
+    rewrite H1 in He. destruct He.
+Qed.
+
+Lemma pre_prc l t s s' : pre l t s s' -> prc l s s'.
+Proof. now intros [A _]. Qed.
+
+(* ------------------------------------------------------------ phase 0: re-keying only *)
+Record rek (l : nat) (s s' : st) : Prop := mkRek {
+  r_len : nf s <= nf s';
+  r_objs : forall f, In f (objs s' l) -> In f (objs s l);
+  r_wok : forall f, In f (objs s' l) -> woken s' f = true -> woken s f = true;
+  r_own : lowner (getl s' l) = lowner (getl s l) }.
+
+Lemma rek_refl l s : rek l s s.
+Proof. constructor; auto. Qed.
+
+Lemma rek_trans l s1 s2 s3 : rek l s1 s2 -> rek l s2 s3 -> rek l s1 s3.
+Proof.
+  intros A B. constructor.
+  - pose proof (r_len _ _ _ A). pose proof (r_len _ _ _ B). lia.
+  - intros f H. apply (r_objs _ _ _ A), (r_objs _ _ _ B), H.
+  - intros f H W. apply (r_wok _ _ _ A); [apply (r_objs _ _ _ B), H|]. apply (r_wok _ _ _ B); auto.
+  - now rewrite (r_own _ _ _ B), (r_own _ _ _ A).
+Qed.
+
+(* what precedes phase 1: either nothing is re-keyed, or only re-keying happens *)
+Definition lead (l : nat) (s s' : st) : Prop := prc l s s' \/ rek l s s'.
 
 (* ------------------------------------------------------------ phase 2 *)
 Record post (l : nat) (m s' : st) : Prop := mkPost {
@@ -92,68 +152,123 @@ Proof.
     apply (q_wok _ _ _ A f Hf H2). apply (q_wok _ _ _ B f); auto. lia.
 Qed.
 
-Definition pp (l : nat) (s s' : st) : Prop := exists m, pre l s m /\ post l m s'.
-Definition both (l : nat) (s s' : st) : Prop := pre l s s' /\ post l s s'.
+Definition pp (l t : nat) (s s' : st) : Prop := exists m, pre l t s m /\ post l m s'.
+(* steps that belong to both phases, whoever is running *)
+Definition both (l : nat) (s s' : st) : Prop := (forall t, pre l t s s') /\ post l s s'.
 
-Lemma pp_pre l s s' : pre l s s' -> pp l s s'.
+Lemma pp_pre l t s s' : pre l t s s' -> pp l t s s'.
 Proof. intros H. exists s'. split; auto. apply post_refl. Qed.
-Lemma pp_post l s s' : post l s s' -> pp l s s'.
+Lemma pp_post l t s s' : post l s s' -> pp l t s s'.
 Proof. intros H. exists s. split; auto. apply pre_refl. Qed.
-Lemma pp_both l s s' : both l s s' -> pp l s s'.
+Lemma pp_both l t s s' : both l s s' -> pp l t s s'.
 Proof. intros [H _]. now apply pp_pre. Qed.
-Lemma pp_refl l s : pp l s s.
+Lemma pp_refl l t s : pp l t s s.
 Proof. apply pp_pre, pre_refl. Qed.
-Lemma pp_pre_l l s1 s2 s3 : pre l s1 s2 -> pp l s2 s3 -> pp l s1 s3.
+Lemma pp_pre_l l t s1 s2 s3 : pre l t s1 s2 -> pp l t s2 s3 -> pp l t s1 s3.
 Proof. intros A (m & B & C). exists m. split; auto. eapply pre_trans; eauto. Qed.
-Lemma pp_post_r l s1 s2 s3 : pp l s1 s2 -> post l s2 s3 -> pp l s1 s3.
+Lemma pp_post_r l t s1 s2 s3 : pp l t s1 s2 -> post l s2 s3 -> pp l t s1 s3.
 Proof. intros (m & B & C) A. exists m. split; auto. eapply post_trans; eauto. Qed.
 Lemma both_refl l s : both l s s.
-Proof. split; [apply pre_refl|apply post_refl]. Qed.
+Proof. split; [intros t; apply pre_refl|apply post_refl]. Qed.
 Lemma both_trans l s1 s2 s3 : both l s1 s2 -> both l s2 s3 -> both l s1 s3.
-Proof. intros [A1 A2] [B1 B2]. split; [eapply pre_trans|eapply post_trans]; eauto. Qed.
-Lemma pp_both_r l s1 s2 s3 : pp l s1 s2 -> both l s2 s3 -> pp l s1 s3.
+Proof. intros [A1 A2] [B1 B2]. split; [intros t; eapply pre_trans|eapply post_trans]; eauto. Qed.
+Lemma both_pre l t s s' : both l s s' -> pre l t s s'.
+Proof. intros [A _]. apply A. Qed.
+Lemma both_prc l s s' : both l s s' -> prc l s s'.
+Proof. intros [A _]. apply (A 0). Qed.
+Lemma pp_both_r l t s1 s2 s3 : pp l t s1 s2 -> both l s2 s3 -> pp l t s1 s3.
 Proof. intros A [_ B]. eapply pp_post_r; eauto. Qed.
-Lemma pp_both_l l s1 s2 s3 : both l s1 s2 -> pp l s2 s3 -> pp l s1 s3.
+Lemma pp_both_l l t s1 s2 s3 : both l s1 s2 -> pp l t s2 s3 -> pp l t s1 s3.
 Proof. intros [A _] B. eapply pp_pre_l; eauto. Qed.
-Lemma pre_both_r l s1 s2 s3 : pre l s1 s2 -> both l s2 s3 -> pre l s1 s3.
+Lemma pre_both_r l t s1 s2 s3 : pre l t s1 s2 -> both l s2 s3 -> pre l t s1 s3.
 Proof. intros A [B _]. eapply pre_trans; eauto. Qed.
 
 (* ------------------------------------------------------------ steps that leave l's queue and the
    states of the old futures alone *)
 Lemma both_fs l s s' :
-  lpq (getl s' l) = lpq (getl s l) -> nf s <= nf s' ->
+  lpq (getl s' l) = lpq (getl s l) ->
+  (lowner (getl s' l) = lowner (getl s l) \/ qa l s' = []) ->
+  nf s <= nf s' ->
   (forall f, f < nf s -> fstate_ (getf s' f) = fstate_ (getf s f)) ->
   (forall f, nf s <= f -> woken s' f = false) ->
   both l s s'.
 Proof.
-  intros El Hn Hf Hnew.
+  intros El Eo' Hn Hf Hnew.
   assert (Eq : qa l s' = qa l s) by (unfold qa; now rewrite El).
   assert (Eo : objs s' l = objs s l) by (unfold objs; now rewrite El).
   assert (Hw : forall f, woken s' f = true -> woken s f = true).
   { intros f W. destruct (Nat.lt_ge_cases f (nf s)) as [H|H].
     - unfold woken in *. now rewrite <- Hf.
     - rewrite Hnew in W by exact H. discriminate. }
-  split; constructor; auto.
+  assert (Hd : forall f, fdone s f = true -> fdone s' f = true).
+  { intros f D. pose proof (fdone_inrange _ _ D) as Hr. unfold fdone in *. now rewrite Hf. }
+  split; [intros t; split|]; constructor; auto.
   - intros e. now rewrite Eq.
-  - intros f D. pose proof (fdone_inrange _ _ D) as Hr. unfold fdone in *. now rewrite Hf.
   - intros ea eb _ _ W0 W1. apply Hw in W1. congruence.
+  - intros e _ W0 W1. apply Hw in W1. congruence.
+  - intros H. destruct Eo' as [E|E]; [left; now rewrite <- E|now right].
   - intros f. rewrite Eo. auto.
-  - intros f D. pose proof (fdone_inrange _ _ D) as Hr. unfold fdone in *. now rewrite Hf.
 Qed.
 
-Lemma both_same l s s' :
-  lpq (getl s' l) = lpq (getl s l) -> futs s' = futs s -> both l s s'.
+(* the same steps leave everything [rek] speaks about alone *)
+Lemma rek_fs l s s' :
+  lpq (getl s' l) = lpq (getl s l) -> lowner (getl s' l) = lowner (getl s l) ->
+  nf s <= nf s' ->
+  (forall f, f < nf s -> fstate_ (getf s' f) = fstate_ (getf s f)) ->
+  (forall f, nf s <= f -> woken s' f = false) ->
+  rek l s s'.
 Proof.
-  intros El Ef. apply both_fs; auto.
+  intros El Eo' Hn Hf Hnew.
+  assert (Eo : objs s' l = objs s l) by (unfold objs; now rewrite El).
+  constructor; auto.
+  - intros f. now rewrite Eo.
+  - intros f _ W. destruct (Nat.lt_ge_cases f (nf s)) as [H|H].
+    + unfold woken in *. now rewrite <- Hf.
+    + rewrite Hnew in W by exact H. discriminate.
+Qed.
+
+Lemma both_same_g l s s' :
+  lpq (getl s' l) = lpq (getl s l) ->
+  (lowner (getl s' l) = lowner (getl s l) \/ qa l s' = []) -> futs s' = futs s -> both l s s'.
+Proof.
+  intros El Eo Ef. apply both_fs; auto.
   - unfold nf. rewrite Ef. lia.
   - intros f _. unfold getf. now rewrite Ef.
   - intros f H. unfold woken. rewrite getf_oob; auto. unfold nf in H. now rewrite Ef.
+Qed.
+
+Lemma both_same l s s' :
+  lpq (getl s' l) = lpq (getl s l) -> lowner (getl s' l) = lowner (getl s l) ->
+  futs s' = futs s -> both l s s'.
+Proof. intros El Eo Ef. apply both_same_g; auto. Qed.
+
+Lemma rek_same l s s' :
+  lpq (getl s' l) = lpq (getl s l) -> lowner (getl s' l) = lowner (getl s l) ->
+  futs s' = futs s -> rek l s s'.
+Proof.
+  intros El Eo Ef. apply rek_fs; auto.
+  - unfold nf. rewrite Ef. lia.
+  - intros f _. unfold getf. now rewrite Ef.
+  - intros f H. unfold woken. rewrite getf_oob; auto. unfold nf in H. now rewrite Ef.
+Qed.
+
+Lemma prc_same l s s' :
+  lpq (getl s' l) = lpq (getl s l) -> futs s' = futs s -> prc l s s'.
+Proof.
+  intros El Ef.
+  assert (Eq : qa l s' = qa l s) by (unfold qa; now rewrite El).
+  constructor.
+  - unfold nf. rewrite Ef. lia.
+  - intros e. now rewrite Eq.
+  - intros f. unfold fdone, getf. now rewrite Ef.
+  - intros ea eb _ _ W0 W1. unfold woken, getf in *. rewrite Ef in W1. congruence.
 Qed.
 
 Lemma both_new_future l s o : both l s (fst (new_future s o)).
 Proof.
   unfold new_future. cbn [fst]. apply both_fs.
   - reflexivity.
+  - now left.
   - unfold nf. cbn. rewrite app_length. lia.
   - intros f H. unfold getf. cbn. now rewrite nth_app_old.
   - intros f H. unfold woken, getf. cbn. destruct (Nat.eq_dec f (nf s)) as [->|Hne].
@@ -165,6 +280,7 @@ Lemma both_setf_flag l s f x : fstate_ x = fstate_ (getf s f) -> both l s (setf 
 Proof.
   intros E. apply both_fs.
   - reflexivity.
+  - now left.
   - unfold nf, setf. cbn. rewrite set_nth_length. lia.
   - intros g _. rewrite getf_setf.
     destruct (Nat.eqb f g && Nat.ltb f (length (futs s)))%bool eqn:C; auto.
@@ -188,12 +304,15 @@ Proof.
   { intros f Hin W1. assert (lockfut s f) as Hl by (now exists l).
     destruct (iD0 I _ Hl) as [Hr _]. destruct (c_woken C _ Hr W1) as [|Hx]; auto.
     exfalso. eapply HW; eauto. }
-  split; constructor.
+  split; [intros t; split|]; constructor.
   - apply (c_nfuts C).
   - intros e. now rewrite Eq.
   - apply (c_done C).
   - intros ea eb _ Hb W0 W1 _. rewrite Eq in Hb. apply in_objs_qa in Hb.
     rewrite (Hw _ Hb W1) in W0. discriminate.
+  - intros e He W0 W1. rewrite Eq in He. apply in_objs_qa in He.
+    rewrite (Hw _ He W1) in W0. discriminate.
+  - intros H. left. destruct (c_lock C l) as (_ & E & _). now rewrite <- E.
   - apply (c_nfuts C).
   - intros f. rewrite Eo. auto.
   - apply (c_done C).
@@ -203,6 +322,19 @@ Qed.
 Lemma both_benign l s s' : benign s s' -> Inv s -> both l s s'.
 Proof.
   intros B I. eapply both_chg; eauto. intros g Hg Hin. apply Hg. now exists l.
+Qed.
+
+Lemma rek_benign l s s' : benign s s' -> Inv s -> rek l s s'.
+Proof.
+  intros C I.
+  assert (Eo : objs s' l = objs s l) by (apply (chg_objs l C)).
+  constructor.
+  - apply (c_nfuts C).
+  - intros f. now rewrite Eo.
+  - intros f Hin W1. rewrite Eo in Hin. assert (lockfut s f) as Hl by (now exists l).
+    destruct (iD0 I _ Hl) as [Hr _]. destruct (c_woken C _ Hr W1) as [Hx|Hx]; [exact Hx|].
+    exfalso. apply Hx. exact Hl.
+  - destruct (c_lock C l) as (_ & E & _). exact E.
 Qed.
 
 (* ------------------------------------------------------------ the queue part of the invariant *)
@@ -247,14 +379,14 @@ Lemma ff_locks s f x : locks (fst (fut_finish s f x)) = locks s.
 Proof. apply fut_finish_proj. Qed.
 
 (* _wake_up_first of lock l0, seen from lock l *)
-Lemma pre_wake l s l0 :
+Lemma prc_wake l s l0 :
   qwf (lpq (getl s l0)) ->
   (l0 <> l -> forall g, In g (objs s l0) -> ~ In g (objs s l)) ->
-  pre l s (wake_up_first_p s l0).
+  prc l s (wake_up_first_p s l0).
 Proof.
   intros (Hq & Hnd & _) Hdis.
   destruct (wake_cases s l0 Hq) as [E|(head & rest & Ea & Hnw & Ep & Ew & Hmin)].
-  { rewrite E. apply pre_refl. }
+  { rewrite E. apply prc_refl. }
   set (h := Z.to_nat (eobj head)) in *.
   assert (Hst : forall g, fstate_ (getf (wake_up_first_p s l0) g) = fstate_ (getf s g) \/
                           (g = h /\ fstate_ (getf (wake_up_first_p s l0) g) = FResult 1)).
@@ -296,90 +428,6 @@ Qed.
 
 Lemma setl_lpq_other s l0 x l : l0 <> l -> lpq (getl (setl s l0 x) l) = lpq (getl s l).
 Proof. intros H. now rewrite getl_setl_other. Qed.
-
-(* the part of acquire() after `await fut` *)
-Lemma pre_acq_finish l s t l0 f had inp :
-  QD s -> pre l s (fst (acquire_p_finish s t l0 f had inp)).
-Proof.
-  intros Q. unfold acquire_p_finish.
-  set (p := match inp with
-            | RVal _ => match take_lock s l0 t with inl s' => (s', RVal 1) | inr e => (s, RExc e) end
-            | RExc e => (s, RExc e) end).
-  assert (K0 : futs (fst p) = futs s /\ forall l, lpq (getl (fst p) l) = lpq (getl s l)).
-  { unfold p. destruct inp; cbn [fst]; auto. destruct (take_lock s l0 t) eqn:E; cbn [fst]; auto.
-    eapply take_lock_same; eauto. }
-  destruct p as [s0 r]. cbn [fst] in K0. destruct K0 as [Ef0 El0].
-  pose proof (QD_same s s0 El0 Q) as Q0.
-  assert (P0 : pre l s s0) by (apply both_same; auto).
-  set (s1 := match pq_remove HQ (lpq (getl s0 l0)) (Z.of_nat f) with
-             | Some (_, q') => setl s0 l0 (getl s0 l0 <| lpq := q' |>
-                  <| lwt := filter (fun pr => negb (Nat.eqb (fst pr) f)) (lwt (getl s0 l0)) |>)
-             | None => s0 end).
-  assert (H1 : futs s1 = futs s0 /\ (forall e, In e (qa l s1) -> In e (qa l s0)) /\
-               qwf (lpq (getl s1 l0)) /\
-               (forall l1 g, In g (objs s1 l1) -> In g (objs s0 l1))).
-  { unfold s1. destruct (pq_remove HQ (lpq (getl s0 l0)) (Z.of_nat f)) as [[pr q']|] eqn:Er.
-    - destruct (qwf_remove _ _ _ _ (proj1 Q0 l0) Er) as (Hq & Hp & _).
-      destruct (pq_remove_perm _ _ _ _ (proj1 (proj1 Q0 l0)) Er) as (_ & e & _ & Hpe).
-      split; [reflexivity|]. split; [|split].
-      + intros x. unfold qa. rewrite getl_setl.
-        destruct (Nat.eqb l0 l && _)%bool eqn:C; auto.
-        apply andb_prop in C as [C _]. apply Nat.eqb_eq in C. subst l0. cbn. intros Hx.
-        eapply Permutation_in; [apply Permutation_sym; exact Hpe|]. now right.
-      + rewrite getl_setl. destruct (Nat.eqb l0 l0 && _)%bool; [exact Hq|apply (proj1 Q0)].
-      + intros l1 g. unfold objs. rewrite getl_setl.
-        destruct (Nat.eqb l0 l1 && _)%bool eqn:C; auto.
-        apply andb_prop in C as [C _]. apply Nat.eqb_eq in C. subst l1. cbn. intros Hx.
-        eapply Permutation_in; [apply Permutation_sym; exact Hp|]. now right.
-    - split; [reflexivity|]. split; [auto|]. split; [apply (proj1 Q0)|auto]. }
-  destruct H1 as (Ef1 & Hs1 & Hq1 & Ho1).
-  assert (P1 : pre l s0 s1).
-  { constructor.
-    - unfold nf. rewrite Ef1. lia.
-    - exact Hs1.
-    - intros g. unfold fdone, getf. now rewrite Ef1.
-    - intros ea eb _ _ W0 W1. unfold woken, getf in *. rewrite Ef1 in W1. congruence. }
-  fold s1.
-  set (s2 := if llocked (getl s1 l0) then s1 else wake_up_first_p s1 l0).
-  assert (P2 : pre l s1 s2).
-  { unfold s2. destruct (llocked (getl s1 l0)); [apply pre_refl|].
-    apply pre_wake; auto. intros Hne g H1 H2. apply Hne.
-    apply (proj2 Q0 l0 l g); auto. }
-  assert (P3 : pre l s2 (if had then sett s2 t (gett s2 t <| twaiting := None |>) else s2)).
-  { destruct had; [|apply pre_refl]. apply both_same; reflexivity. }
-  cbn [fst]. eapply pre_trans; [exact P0|]. eapply pre_trans; [exact P1|].
-  eapply pre_trans; [exact P2|exact P3].
-Qed.
-
-(* release() *)
-Lemma pre_release_p l s t l0 : QD s -> pre l s (fst (release_p s t l0)).
-Proof.
-  intros Q. unfold release_p.
-  destruct (negb (llocked (getl s l0))); [apply pre_refl|].
-  destruct (lowner (getl s l0)); [|apply pre_refl].
-  destruct (negb (Nat.eqb n t)); [apply pre_refl|]. cbn [fst].
-  set (s1 := setl s l0 (getl s l0 <| lowner := None |>)).
-  set (s2 := if is_prio_task s1 t
-             then sett s1 t (gett s1 t <| tholding := filter (fun x => negb (Nat.eqb x l0)) (tholding (gett s1 t)) |>)
-             else s1).
-  set (s3 := setl s2 l0 (getl s2 l0 <| llocked := false |>)).
-  assert (E1 : forall l', lpq (getl s1 l') = lpq (getl s l')).
-  { intros l'. unfold s1. rewrite getl_setl. destruct (Nat.eqb l0 l' && _)%bool eqn:C; auto.
-    apply andb_prop in C as [C _]. apply Nat.eqb_eq in C. now subst l'. }
-  assert (E2 : forall l', lpq (getl s2 l') = lpq (getl s1 l')).
-  { intros l'. unfold s2. destruct (is_prio_task s1 t); reflexivity. }
-  assert (E3 : forall l', lpq (getl s3 l') = lpq (getl s2 l')).
-  { intros l'. unfold s3. rewrite getl_setl. destruct (Nat.eqb l0 l' && _)%bool eqn:C; auto.
-    apply andb_prop in C as [C _]. apply Nat.eqb_eq in C. now subst l'. }
-  assert (E : forall l', lpq (getl s3 l') = lpq (getl s l')).
-  { intros l'. now rewrite E3, E2, E1. }
-  assert (Ef : futs s3 = futs s).
-  { unfold s3, s2. destruct (is_prio_task s1 t); reflexivity. }
-  pose proof (QD_same s s3 E Q) as Q3.
-  eapply pre_trans; [apply both_same; [apply E|exact Ef]|].
-  apply pre_wake; [apply (proj1 Q3)|].
-  intros Hne g H1 H2. apply Hne. apply (proj2 Q3 l0 l g); auto.
-Qed.
 
 (* propagate_priority does not touch the future table *)
 Lemma prop_futs fuel : forall s t, futs (propagate_task fuel s t) = futs s.
@@ -434,17 +482,202 @@ Proof.
     + intros l0 g. rewrite Ho2. apply Ho1.
 Qed.
 
+(* ... nor the owners *)
+Lemma prop_owner fuel : forall s t l0,
+  lowner (getl (propagate_task fuel s t) l0) = lowner (getl s l0).
+Proof.
+  induction fuel as [|fuel IH]; intros s t l0; cbn [propagate_task].
+  - destruct (negb (is_prio_task s t)); auto. destruct (task_is_runnable s t); auto.
+    destruct (twaiting (gett s t)); auto.
+  - destruct (negb (is_prio_task s t)); auto. destruct (task_is_runnable s t); auto.
+    destruct (twaiting (gett s t)) as [l|]; auto.
+    set (s1 := match lowner (getl s l) with Some o => propagate_task fuel s o | None => s end).
+    assert (E1 : lowner (getl s1 l0) = lowner (getl s l0)).
+    { unfold s1. destruct (lowner (getl s l)); auto. }
+    destruct (find _ (lwt (getl s1 l))) as [[f t0]|]; auto.
+    destruct (pq_reschedule HQ (lpq (getl s1 l)) _ _) as [[o q']|]; auto.
+    rewrite getl_setl. destruct (Nat.eqb l l0 && _)%bool eqn:C; auto.
+    apply andb_prop in C as [C _]. apply Nat.eqb_eq in C. subst l0. cbn. exact E1.
+Qed.
+
+(* propagate_priority as a phase-0 step *)
+Lemma rek_propagate l s o : QD s -> rek l s (propagate_priority s o).
+Proof.
+  intros Q. unfold propagate_priority. constructor.
+  - unfold nf. rewrite prop_futs. lia.
+  - intros f. apply prop_objs. exact Q.
+  - intros f _. unfold woken, getf. now rewrite prop_futs.
+  - apply prop_owner.
+Qed.
+
+Lemma take_lock_owner s l0 t s' :
+  take_lock s l0 t = inl s' ->
+  lowner (getl s' l0) = Some t \/ lowner (getl s' l0) = None.
+Proof.
+  unfold take_lock. destruct (lowner (getl s l0)) eqn:Eo; [discriminate|].
+  intros H. inversion H; subst s'. clear H.
+  set (s1 := setl s l0 (getl s l0 <| lowner := Some t |> <| llocked := true |>)).
+  assert (A : lowner (getl s1 l0) = Some t \/ lowner (getl s1 l0) = None).
+  { unfold s1. rewrite getl_setl. destruct (Nat.eqb l0 l0 && _)%bool; [left; reflexivity|right; exact Eo]. }
+  destruct (is_prio_task s1 t); exact A.
+Qed.
+
+(* the part of acquire() after `await fut`: either nothing is re-keyed (the waiter takes the lock,
+   or the lock is free and the next waiter is woken), or the waiter leaves a lock that stays
+   locked by another task and its owner propagates (re-keys) *)
+Lemma acq_finish_lead l s t l0 f had inp :
+  QD s -> lead l s (fst (acquire_p_finish s t l0 f had inp)).
+Proof.
+  intros Q. unfold acquire_p_finish.
+  set (p := match inp with
+            | RVal _ => match take_lock s l0 t with inl s' => (s', RVal 1) | inr e => (s, RExc e) end
+            | RExc e => (s, RExc e) end).
+  assert (K0 : (futs (fst p) = futs s /\ forall l, lpq (getl (fst p) l) = lpq (getl s l)) /\
+               (fst p = s \/ lowner (getl (fst p) l0) = Some t \/ lowner (getl (fst p) l0) = None)).
+  { unfold p. destruct inp; cbn [fst]; auto. destruct (take_lock s l0 t) eqn:E; cbn [fst]; auto.
+    split; [eapply take_lock_same; eauto|]. right. eapply take_lock_owner; eauto. }
+  destruct p as [s0 r]. cbn [fst] in K0. destruct K0 as [[Ef0 El0] Ho0].
+  pose proof (QD_same s s0 El0 Q) as Q0.
+  assert (P0 : prc l s s0) by (apply prc_same; auto).
+  set (s1 := match pq_remove HQ (lpq (getl s0 l0)) (Z.of_nat f) with
+             | Some (_, q') => setl s0 l0 (getl s0 l0 <| lpq := q' |>
+                  <| lwt := filter (fun pr => negb (Nat.eqb (fst pr) f)) (lwt (getl s0 l0)) |>)
+             | None => s0 end).
+  assert (H1 : futs s1 = futs s0 /\ (forall e, In e (qa l s1) -> In e (qa l s0)) /\
+               (forall l1, qwf (lpq (getl s1 l1))) /\
+               (forall l1 g, In g (objs s1 l1) -> In g (objs s0 l1)) /\
+               (forall l1, lowner (getl s1 l1) = lowner (getl s0 l1))).
+  { unfold s1. destruct (pq_remove HQ (lpq (getl s0 l0)) (Z.of_nat f)) as [[pr q']|] eqn:Er.
+    - destruct (qwf_remove _ _ _ _ (proj1 Q0 l0) Er) as (Hq & Hp & _).
+      destruct (pq_remove_perm _ _ _ _ (proj1 (proj1 Q0 l0)) Er) as (_ & e & _ & Hpe).
+      split; [reflexivity|]. split; [|split; [|split]].
+      + intros x. unfold qa. rewrite getl_setl.
+        destruct (Nat.eqb l0 l && _)%bool eqn:C; auto.
+        apply andb_prop in C as [C _]. apply Nat.eqb_eq in C. subst l0. cbn. intros Hx.
+        eapply Permutation_in; [apply Permutation_sym; exact Hpe|]. now right.
+      + intros l1. rewrite getl_setl. destruct (Nat.eqb l0 l1 && _)%bool eqn:C; [|apply (proj1 Q0)].
+        exact Hq.
+      + intros l1 g. unfold objs. rewrite getl_setl.
+        destruct (Nat.eqb l0 l1 && _)%bool eqn:C; auto.
+        apply andb_prop in C as [C _]. apply Nat.eqb_eq in C. subst l1. cbn. intros Hx.
+        eapply Permutation_in; [apply Permutation_sym; exact Hp|]. now right.
+      + intros l1. rewrite getl_setl. destruct (Nat.eqb l0 l1 && _)%bool eqn:C; auto.
+        apply andb_prop in C as [C _]. apply Nat.eqb_eq in C. subst l1. reflexivity.
+    - split; [reflexivity|]. split; [auto|]. split; [apply (proj1 Q0)|auto]. }
+  destruct H1 as (Ef1 & Hs1 & Hq1 & Ho1 & Hw1).
+  assert (Q1 : QD s1).
+  { split; [exact Hq1|]. intros l1 l2 g A B. apply (proj2 Q0 l1 l2 g); auto. }
+  assert (P1 : prc l s0 s1).
+  { constructor.
+    - unfold nf. rewrite Ef1. lia.
+    - exact Hs1.
+    - intros g. unfold fdone, getf. now rewrite Ef1.
+    - intros ea eb _ _ W0 W1. unfold woken, getf in *. rewrite Ef1 in W1. congruence. }
+  assert (R1 : rek l s0 s1).
+  { constructor.
+    - unfold nf. rewrite Ef1. lia.
+    - apply Ho1.
+    - intros g _. unfold woken, getf. now rewrite Ef1.
+    - apply Hw1. }
+  fold s1.
+  set (s2 := if llocked (getl s1 l0)
+             then match lowner (getl s1 l0) with
+                  | Some o => if Nat.eqb o t then s1 else propagate_priority s1 o
+                  | None => s1 end
+             else wake_up_first_p s1 l0).
+  assert (P2 : prc l s1 s2 \/ (s0 = s /\ rek l s1 s2)).
+  { unfold s2. destruct (llocked (getl s1 l0)).
+    - destruct (lowner (getl s1 l0)) as [o|] eqn:Eo; [|left; apply prc_refl].
+      destruct (Nat.eqb o t) eqn:Eot; [left; apply prc_refl|]. right. split.
+      + rewrite Hw1 in Eo. destruct Ho0 as [E|[E|E]]; auto; rewrite E in Eo; [|discriminate].
+        inversion Eo; subst o. rewrite Nat.eqb_refl in Eot. discriminate.
+      + now apply rek_propagate.
+    - left. apply prc_wake; auto. intros Hne g A B. apply Hne.
+      apply (proj2 Q1 l0 l g); auto. }
+  set (s3 := if had then sett s2 t (gett s2 t <| twaiting := None |>) else s2).
+  assert (P3 : prc l s2 s3 /\ rek l s2 s3).
+  { unfold s3. destruct had; [|split; [apply prc_refl|apply rek_refl]].
+    split; [apply prc_same|apply rek_same]; reflexivity. }
+  cbn [fst]. destruct P3 as [P3 R3]. destruct P2 as [P2|[E R2]].
+  - left. eapply prc_trans; [exact P0|]. eapply prc_trans; [exact P1|].
+    eapply prc_trans; [exact P2|exact P3].
+  - right. subst s0. eapply rek_trans; [exact R1|]. eapply rek_trans; [exact R2|exact R3].
+Qed.
+
+(* release() *)
+Lemma pre_release_p l s t l0 : QD s -> pre l t s (fst (release_p s t l0)).
+Proof.
+  intros Q. unfold release_p.
+  destruct (negb (llocked (getl s l0))); [apply pre_refl|].
+  destruct (lowner (getl s l0)) as [n|] eqn:Eown; [|apply pre_refl].
+  destruct (negb (Nat.eqb n t)) eqn:Ent; [apply pre_refl|]. cbn [fst].
+  apply negb_false_iff, Nat.eqb_eq in Ent. subst n.
+  set (s1 := setl s l0 (getl s l0 <| lowner := None |>)).
+  set (s2 := if is_prio_task s1 t
+             then sett s1 t (gett s1 t <| tholding := filter (fun x => negb (Nat.eqb x l0)) (tholding (gett s1 t)) |>)
+             else s1).
+  set (s3 := setl s2 l0 (getl s2 l0 <| llocked := false |>)).
+  assert (E1 : forall l', lpq (getl s1 l') = lpq (getl s l')).
+  { intros l'. unfold s1. rewrite getl_setl. destruct (Nat.eqb l0 l' && _)%bool eqn:C; auto.
+    apply andb_prop in C as [C _]. apply Nat.eqb_eq in C. now subst l'. }
+  assert (E2 : forall l', getl s2 l' = getl s1 l').
+  { intros l'. unfold s2. destruct (is_prio_task s1 t); reflexivity. }
+  assert (E3 : forall l', lpq (getl s3 l') = lpq (getl s2 l')).
+  { intros l'. unfold s3. rewrite getl_setl. destruct (Nat.eqb l0 l' && _)%bool eqn:C; auto.
+    apply andb_prop in C as [C _]. apply Nat.eqb_eq in C. now subst l'. }
+  assert (E : forall l', lpq (getl s3 l') = lpq (getl s l')).
+  { intros l'. now rewrite E3, E2, E1. }
+  assert (Ef : futs s3 = futs s).
+  { unfold s3, s2. destruct (is_prio_task s1 t); reflexivity. }
+  (* owners: l0 loses its owner, the others keep theirs *)
+  assert (Eo : forall l', lowner (getl s3 l') = lowner (getl s l') \/
+                          (l' = l0 /\ lowner (getl s3 l') = None)).
+  { intros l'. destruct (Nat.eq_dec l0 l') as [<-|Hne].
+    - unfold s3. rewrite getl_setl. destruct (Nat.eqb l0 l0 && _)%bool.
+      + cbn. rewrite E2. unfold s1. rewrite getl_setl.
+        destruct (Nat.eqb l0 l0 && _)%bool; [right; split; reflexivity|now left].
+      + rewrite E2. unfold s1. rewrite getl_setl.
+        destruct (Nat.eqb l0 l0 && _)%bool; [right; split; reflexivity|now left].
+    - left. unfold s3. rewrite getl_setl_other by exact Hne. rewrite E2.
+      unfold s1. now rewrite getl_setl_other by exact Hne. }
+  pose proof (QD_same s s3 E Q) as Q3.
+  assert (P03 : prc l s s3) by (apply prc_same; [apply E|exact Ef]).
+  assert (Hdis : l0 <> l -> forall g, In g (objs s3 l0) -> ~ In g (objs s3 l)).
+  { intros Hne g A B. apply Hne. apply (proj2 Q3 l0 l g); auto. }
+  pose proof (prc_wake l s3 l0 (proj1 Q3 l0) Hdis) as P34.
+  assert (Ew : forall l', getl (wake_up_first_p s3 l0) l' = getl s3 l').
+  { intros l'. unfold getl. now rewrite wake_locks. }
+  split; [eapply prc_trans; eauto|]. constructor.
+  - (* a waiter of l is woken only if l = l0, which t owned *)
+    intros e He W0 W1. destruct (Nat.eq_dec l0 l) as [->|Hne]; [exact Eown|]. exfalso.
+    assert (He3 : In e (qa l s3)) by (unfold qa in *; now rewrite Ew in He).
+    assert (W3 : woken s3 (fo e) = false).
+    { unfold woken, getf in *. now rewrite Ef. }
+    (* the woken future is queued on l0 *)
+    unfold wake_up_first_p in W1. cbv zeta in W1.
+    destruct (arr (lpq (getl s3 l0))) as [|head rest] eqn:Ea; [congruence|].
+    destruct (existsb _ (pq_objs (lpq (getl s3 l0)))); [congruence|].
+    destruct (fdone s3 (Z.to_nat (eobj head))); [congruence|].
+    destruct (ff_state s3 (Z.to_nat (eobj head)) (FResult 1) (fo e)) as [Es|[Es _]].
+    + unfold woken in *. rewrite Es in W1. congruence.
+    + apply (Hdis Hne (fo e)).
+      * rewrite Es. unfold objs, pq_objs. rewrite Ea. simpl. now left.
+      * now apply in_objs_qa.
+  - intros H. rewrite Ew in H. destruct (Eo l) as [E'|[_ E']]; [left; now rewrite <- E'|].
+    rewrite E' in H. discriminate.
+Qed.
+
 Definition lres_done (r : lres) : bool := match r with LDone _ => true | LSusp _ _ => false end.
 
 (* the result of a library call / frame: finished => phase 1 only; suspended => phase 1, then phase 2 *)
-Definition nov (l : nat) (s s' : st) (r : lres) : Prop :=
-  if lres_done r then pre l s s' else pp l s s'.
+Definition nov (l t : nat) (s s' : st) (r : lres) : Prop :=
+  if lres_done r then pre l t s s' else pp l t s s'.
 
-Lemma nov_pp l s s' r : nov l s s' r -> pp l s s'.
+Lemma nov_pp l t s s' r : nov l t s s' r -> pp l t s s'.
 Proof. unfold nov. destruct (lres_done r); auto. apply pp_pre. Qed.
-Lemma nov_both l s s' r : both l s s' -> nov l s s' r.
+Lemma nov_both l t s s' r : both l s s' -> nov l t s s' r.
 Proof. unfold nov. intros [A B]. destruct (lres_done r); auto. now apply pp_pre. Qed.
-Lemma nov_pre_l l s1 s2 s3 r : pre l s1 s2 -> nov l s2 s3 r -> nov l s1 s3 r.
+Lemma nov_pre_l l t s1 s2 s3 r : pre l t s1 s2 -> nov l t s2 s3 r -> nov l t s1 s3 r.
 Proof.
   unfold nov. intros A B. destruct (lres_done r); [eapply pre_trans|eapply pp_pre_l]; eauto.
 Qed.
@@ -452,12 +685,21 @@ Qed.
 (* PriorityLock.acquire up to its `await fut` *)
 Lemma nov_acq_p_start l s t l0 :
   QD s -> (forall l1 g, In g (objs s l1) -> g < nf s) ->
-  nov l s (fst (acquire_p_start s t l0)) (snd (acquire_p_start s t l0)).
+  nov l t s (fst (acquire_p_start s t l0)) (snd (acquire_p_start s t l0)).
 Proof.
   intros Q Hbd. unfold acquire_p_start.
-  destruct (negb (llocked (getl s l0)) && _)%bool.
+  destruct (negb (llocked (getl s l0)) && _)%bool eqn:Efree.
   - destruct (take_lock s l0 t) as [s'|e] eqn:E; cbn [fst snd].
-    + destruct (take_lock_same s l0 t s' E) as [Ef El]. apply nov_both. apply both_same; auto.
+    + destruct (take_lock_same s l0 t s' E) as [Ef El]. apply nov_both. apply both_same_g; auto.
+      (* the lock is taken only when nobody is queued on it *)
+      destruct (Nat.eq_dec l0 l) as [->|Hne].
+      * right. unfold qa. rewrite El. apply andb_prop in Efree as [_ Efree].
+        destruct (arr (lpq (getl s l))); [reflexivity|discriminate].
+      * left. unfold take_lock in E. destruct (lowner (getl s l0)); [discriminate|].
+        inversion E; subst s'. clear E.
+        set (s1 := setl s l0 (getl s l0 <| lowner := Some t |> <| llocked := true |>)).
+        assert (A : lowner (getl s1 l) = lowner (getl s l)) by (unfold s1; now rewrite getl_setl_other).
+        destruct (is_prio_task s1 t); exact A.
     + apply nov_both, both_refl.
   - set (f := length (futs s)). set (s1 := fst (new_future s None)).
     change (new_future s None) with (s1, f). cbv beta iota.
